@@ -435,6 +435,22 @@ def mgda_loop():
                 cx.assume(z3.Implies(z3.And(ra * ra <= rb * rc, rb >= 0, rc >= 0),
                                      z3.And(0 <= g, g <= 1, (1 - g) * (1 - g) * rb + 2 * g * (1 - g) * ra + g * g * rc <= rb)),
                           tag="[L] fwGamma_mem_Icc, fwGamma_descent (Lean)")
+                # GROUND instances of the (already assumed, quantified) quadratic-form axioms at this iteration's vectors: the
+                # solver then only has linear reasoning left (robust under machine load; vp check 4 saw a timeout here)
+                if "gamma" in frame.vars and "e_t" in frame.vars and "__alpha_in__" in frame.vars:
+                    gq = as_real(frame.vars["gamma"])
+                    xin, ye = frame.vars["__alpha_in__"], frame.vars["e_t"].term
+                    pq = 1 - gq
+                    comb = U("eadd", ArrS, U("smul", ArrS, z3.simplify(pq), xin), U("smul", ArrS, z3.simplify(gq), ye))
+                    cx.assume(bil(comb, comb) == pq * pq * bil(xin, xin) + 2 * pq * gq * bil(xin, ye) + gq * gq * bil(ye, ye),
+                              tag="ground instance of the quadratic-form expansion axiom")
+                    cx.assume(z3.And(bil(xin, xin) >= 0, bil(ye, ye) >= 0, bil(xin, ye) * bil(xin, ye) <= bil(xin, xin) * bil(ye, ye),
+                                     bil(xin, ye) == bil(ye, xin)), tag="ground instance of the PSD axioms")
+                    rxa, rxb, rxc = bil(xin, ye), bil(xin, xin), bil(ye, ye)
+                    gx = z3.If(rxc <= rxa, z3.RealVal(1), z3.If(rxb <= rxa, z3.RealVal(0), (rxb - rxa) / (rxb + rxc - 2 * rxa)))
+                    cx.assume(z3.Implies(z3.And(rxa * rxa <= rxb * rxc, rxb >= 0, rxc >= 0),
+                                         z3.And(0 <= gx, gx <= 1, (1 - gx) * (1 - gx) * rxb + 2 * gx * (1 - gx) * rxa + gx * gx * rxc <= rxb)),
+                              tag="[L] fwGamma_descent (Lean) at the spec-level scalars")
             except Exception:  # noqa: BLE001
                 pass
         return [("sum_is_one", vsum(a) == 1), ("nonnegative", nonneg(a)), ("norm_never_increases", bil(a, a) <= bil(a0, a0))]
